@@ -293,6 +293,13 @@ theorem mutable_class_form_default_accepted :
         (inject (.mutableClassForm "a" (.seqAny .list {}) (.list [.int 1])) (plainSrc "X" ["Structure"] []))) = false := by
   decide
 
+/-- finding `fault-accepted:bare-type:pep604-union`: `x = int | str` passes the guard -/
+theorem pep604_union_passes_guard :
+    (Fault.bareType "x" .union).applies exO W0 (plainSrc "X" ["Structure"] []) = true
+    ∧ isError (defineClass exO W0 (inject (.bareType "x" .union) (plainSrc "X" ["Structure"] []))) = false
+    ∧ isError (defineClass exO W0 (inject (.bareType "x" .generic) (plainSrc "X" ["Structure"] []))) = true := by
+  decide
+
 theorem fault_rejected_statement_false : ¬ fault_rejected_statement := by
   intro h
   rcases h exO W0 (plainSrc "X" ["Structure"] []) _ falsy_default_not_validated.1 with ⟨e, he⟩
